@@ -69,7 +69,8 @@ def run(tier='quick', seed=0, only=None, verbose=False):
                 jobs.append(dict(key=f"{k}|vec={v}|{solver}", spec=s, vectorize=v, solver=solver))
     # dde_approx=n: plain delays realised as n-stage chains
     dd = [p for p in families.fam_discrete_delays_fixed() if p[0] in ('F9x:two-delays-one-source', 'F9x:ring',
-                                                                                'F9x:two-delays-one-target')]
+                                                                                'F9x:two-delays-one-target', 'F9x:parallel-delayed',
+                                                                                'F9x:parallel-delayed-scalar-source')]
     for k, s in dd:
         for n_ in ((2,) if tier == 'quick' else (1, 2, 3, 5)):
             for v in (True, False):
